@@ -735,10 +735,15 @@ impl Deserialise for ManagementAddress {
     fn from_wire(
         buf: &mut pktparser::Buffer<'_>,
     ) -> std::result::Result<Self, pktparser::ParseError> {
-        let mgmt_addr_len = (buf
+        let mgmt_addr_len = buf
             .get_u8()
-            .ok_or(pktparser::ParseError::UnexpectedEndOfInput)?)
-            - 1; /* -1 for sizeof<mgmt_addr_af> */
+            .ok_or(pktparser::ParseError::UnexpectedEndOfInput)?
+            .checked_sub(1) /* -1 for sizeof<mgmt_addr_af> */
+            .ok_or_else(|| {
+                pktparser::ParseError::InvalidArgument(
+                    "0 outside of valid range for mgmt_addr string length".into(),
+                )
+            })?;
         let mgmt_addr_af = buf
             .get_u8()
             .ok_or(pktparser::ParseError::UnexpectedEndOfInput)?;
